@@ -805,7 +805,8 @@ def env_for(P, ctxmode, src=''):
     that calls the pedantic wrapper - the calling module, or the generated module itself when a pass-through decorator sits above
     @pedantic; a name both bind means what the defining module says"""
     env = K.env_json()
-    through = re.search(r'@passthru\n[ \t]*@pedantic', src) is not None      # at any indentation (methods, classes inside functions)
+    # at any indentation (methods, classes inside functions), with or without a trailing comment on the decorator lines
+    through = re.search(r'@passthru[ \t]*(#[^\n]*)?\n[ \t]*@pedantic', src) is not None
     caller = dict(K.CTX) if (P.callers.has_names(ctxmode) and not through) else {}      # 'loop': the event loop's frame binds none of them
     merged = {**caller, **MODULE_BOUND}
     merged.pop('Counter', None)
